@@ -198,6 +198,13 @@ class SyncIter(Iterable):
         if self._stopped is None:
             return
         self._stopped.set()
+        while self._worker_thread.is_alive():
+            # The worker may be blocked in `put` on the full queue;
+            # keep making room until it has seen the flag and exited.
+            try:
+                self._q.get(timeout=0.01)
+            except queue.Empty:
+                pass
         self._worker_thread.join()
         self._stopped = None
 
@@ -453,10 +460,15 @@ class AsyncBuffer(AsyncIterable):
             return
         self._stopped.set()
         tasks = self._tasks
-        while not tasks.empty():
-            _ = tasks.get()
-        # `tasks` is now empty. The thread needs to put at most one
-        # more element into the queue, which is safe.
+        while self._worker.is_alive():
+            # Keep draining until the worker has exited: it may be blocked in `put`,
+            # and may still have up to three more items to put (the current element,
+            # then either `FINISHED` or `STOPPED` plus the exception object),
+            # which can be more than the queue holds.
+            try:
+                _ = tasks.get(timeout=0.01)
+            except queue.Empty:
+                pass
         self._worker.join()
         self._stopped = None
 
